@@ -141,6 +141,10 @@ def main(argv=None):
             new_classes[cls] = v
 
     rdir = os.path.join(env.VERIF, "replays", pid)
+    if os.path.isdir(rdir):  # replays of earlier runs are stale
+        import shutil
+
+        shutil.rmtree(rdir, ignore_errors=True)
     lines = []
     if new_classes:
         os.makedirs(rdir, exist_ok=True)
